@@ -133,12 +133,32 @@ struct Drv {
     layouts: Vec<String>,
     data_dirs: Vec<String>,
     max_live: usize,
+    /// path of the user's auto-correct file, and whether this session may edit it (sessions that start with a valid file)
+    user_ac: String,
+    may_edit_user_file: bool,
+    user_file_edits: u64,
 }
 
 const KEYS_PH: &[u16] = &[0xA096, 0xA0A2, 0xA09E, 0xA0A8, 0xA09A, 0xA0A0, 0xA0A4, 0xA0A9, 0xA0A7, 0xA0A3, 0x0063, 0x0044, 0x0034, 0x0033, 0x0064, 0x0028, 0x0029, 0x0002, 0x0E1C, 0x0E0D, 0x004F, 0xA0B4, 0xA0C2];
 const KEYS_FX: &[u16] = &[0xA0A0, 0xA096, 0xA09E, 0xA0A7, 0x0035, 0xA0AA, 0x001A, 0x001B, 0x0066, 0xA0BF, 0x0064, 0x0028, 0x0034, 0x0063, 0x0044, 0x0027, 0x004F, 0x0053, 0x0E1C, 0xA0A2, 0xA0A9, 0xA0A8, 0x0002];
 
 impl Drv {
+    fn edit_user_file(&mut self) {
+        const DOCS: [&str; 4] = ["{\"a\":\"amar\",\"ami\":\"tumi\",\"k\":\"kO\"}", "{\"a\":\"ami\",\"m\":\"ma\",\"ami\":\"tomra\",\"i\":\"I\"}", "{\"k\":\"kha\"}", "{}"];
+        self.user_file_edits += 1;
+        let doc = DOCS[(self.user_file_edits % 4) as usize];
+        if std::fs::write(&self.user_ac, doc).is_ok() {
+            // (Miri has no futimens: there the time stamp is simply that of the write, which is later than the last one)
+            if cfg!(miri) {
+                return;
+            }
+            if let Ok(f) = std::fs::File::options().write(true).open(&self.user_ac) {
+                // strictly increasing, whole seconds apart, in the future of every earlier version
+                let t = std::time::SystemTime::now() + std::time::Duration::from_secs(10 * self.user_file_edits);
+                let _ = f.set_modified(t);
+            }
+        }
+    }
     fn call(&mut self, name: &'static str) {
         *self.calls.entry(name).or_insert(0) += 1;
     }
@@ -361,6 +381,11 @@ impl Drv {
                 if !riti_context_ongoing_input_session(self.ctxs[xi].ptr) {
                     let ci = self.rng.below(self.cfgs.len());
                     if self.cfgs[ci].usable {
+                        // the user edits the auto-correct file in between (newer modification time each time): the
+                        // context re-loads it, and what it held before must be released
+                        if self.may_edit_user_file && self.rng.chance(1, 2) {
+                            self.edit_user_file();
+                        }
                         self.call("riti_context_update_engine");
                         riti_context_update_engine(self.ctxs[xi].ptr, self.cfgs[ci].ptr);
                         self.ctxs[xi].fixed = self.cfgs[ci].fixed;
@@ -661,6 +686,47 @@ unsafe fn scripted(d: &mut Drv) {
             }
         }
     }
+    // the re-load path of the user's auto-correct file: phonetic method, the file edited (newer time stamp), update_engine
+    // on the idle context, twice; then a word whose key is in the file
+    if let Some(ctx) = scripted_ctx {
+        d.call("riti_config_new");
+        let c = riti_config_new();
+        let l = CString::new(d.layouts[0].clone()).unwrap();
+        d.call("riti_config_set_layout_file");
+        riti_config_set_layout_file(c, l.as_ptr());
+        let dd = CString::new(d.data_dirs[0].clone()).unwrap();
+        d.call("riti_config_set_database_dir");
+        riti_config_set_database_dir(c, dd.as_ptr());
+        d.call("riti_config_set_phonetic_suggestion");
+        riti_config_set_phonetic_suggestion(c, false);
+        let xi = d.ctxs.iter().position(|x| x.ptr == ctx).unwrap();
+        for round in 0..3 {
+            if round > 0 {
+                d.edit_user_file();
+            }
+            d.call("riti_context_update_engine");
+            riti_context_update_engine(ctx, c);
+            d.ctxs[xi].fixed = false;
+            d.ctxs[xi].ansi = false;
+            d.ctxs[xi].on_screen = 0;
+            d.ctxs[xi].highlight = 0;
+        }
+        d.cfgs.push(LiveCfg { ptr: c, usable: true, fixed: false, ansi: false });
+        for k in [0xA096u16, 0xA0A2] {
+            d.call("riti_get_suggestion_for_key");
+            let s = riti_get_suggestion_for_key(ctx, k, 0, 0);
+            d.adopt(xi, s);
+            let i = d.suggs.len() - 1;
+            d.readout(i);
+        }
+        d.call("riti_context_finish_input_session");
+        riti_context_finish_input_session(ctx);
+        d.ctxs[xi].on_screen = 0;
+        for st in std::mem::take(&mut d.strs) {
+            d.call("riti_string_free");
+            riti_string_free(st.ptr);
+        }
+    }
     // a second context over another database directory while the first one is alive: both keep working on their own data
     // (under Miri a second context costs about a minute: only when asked for - the thorough tier does)
     if d.small && std::env::var("FFIDRV_SECOND_CTX").is_err() {
@@ -748,6 +814,9 @@ fn main() {
             layouts: layouts.clone(),
             data_dirs: data_dirs.clone(),
             max_live: if small { 6 } else { 24 },
+            user_ac: format!("{root}/openbangla-keyboard/autocorrect.json"),
+            may_edit_user_file: s % 3 == 2 || (small && sessions == 1),
+            user_file_edits: 0,
         };
         unsafe {
             if s == 0 && a.iter().any(|x| x == "scripted") {
